@@ -20,15 +20,15 @@ func init() {
 }
 
 type TokScen struct {
-	Op    string  `json:"op"` // rt | dec | gen
-	Toks  []TokJ  `json:"toks"`
-	Str   []int   `json:"str"`
-	Idx   []int   `json:"idx"`
-	Words [][]int `json:"words"`
-	Len   int     `json:"len"`
-	Cap   string  `json:"cap"`
-	SepC  []int   `json:"sepChar"`
-	Sep   string  `json:"sep"`
+	Op    string    `json:"op"` // rt | dec | gen
+	Toks  []TokJ    `json:"toks"`
+	Str   []int     `json:"str"`
+	Idx   []int     `json:"idx"`
+	Words [][]int   `json:"words"`
+	Len   int       `json:"len"`
+	Cap   string    `json:"cap"`
+	SepC  []int     `json:"sepChar"`
+	Sep   string    `json:"sep"`
 	Char  *CharSpec `json:"char"`
 }
 
